@@ -314,6 +314,72 @@ theorem Inv_reqDiscard (g : Grammar) (n : Name) (h : g.Inv) : (reqDiscard g n).I
   ⟨⟨fun r hr => h.1.1 r ((mem_serase g.required n r).mp hr).1, h.1.2⟩,
    CacheOK_transfer g _ rfl rfl rfl h.2⟩
 
+/-! ### the other public ways of writing defaults and required names -/
+
+theorem Inv_updateDefaults (g : Grammar) (l : List (Name × String)) (h : g.Inv) :
+    (updateDefaults g l).1.Inv := by
+  induction l generalizing g with
+  | nil => exact h
+  | cons p t ih =>
+    unfold updateDefaults
+    split
+    · rename_i hp
+      apply ih
+      exact Inv_setDefault g _ p.1 p.2 h (by unfold setDefault; simp [hp])
+    · exact h
+
+theorem updateDefaults_same (g : Grammar) (l : List (Name × String)) :
+    (updateDefaults g l).1.elems = g.elems ∧ (updateDefaults g l).1.required = g.required ∧
+    (updateDefaults g l).1.kind = g.kind ∧ (updateDefaults g l).1.toNs = g.toNs ∧
+    (updateDefaults g l).1.fromNs = g.fromNs := by
+  induction l generalizing g with
+  | nil => exact ⟨rfl, rfl, rfl, rfl, rfl⟩
+  | cons p t ih =>
+    unfold updateDefaults
+    split
+    · exact ih _
+    · exact ⟨rfl, rfl, rfl, rfl, rfl⟩
+
+theorem Inv_clearDefaults (g : Grammar) (h : g.Inv) : (clearDefaults g).Inv :=
+  ⟨⟨h.1.1, fun d hd => by simp [clearDefaults, akeys] at hd⟩, CacheOK_transfer g _ rfl rfl rfl h.2⟩
+
+theorem Inv_reqRemove (g g' : Grammar) (n : Name) (h : g.Inv) (hok : reqRemove g n = .ok g') : g'.Inv := by
+  unfold reqRemove at hok
+  split at hok
+  · cases hok; exact Inv_reqDiscard g n h
+  · cases hok
+
+theorem Inv_reqClear (g : Grammar) (h : g.Inv) : (reqClear g).Inv :=
+  ⟨⟨fun r hr => by simp [reqClear] at hr, h.1.2⟩, CacheOK_transfer g _ rfl rfl rfl h.2⟩
+
+theorem Inv_reqUpdate (g : Grammar) (l : List Name) (h : g.Inv) : (reqUpdate g l).1.Inv := by
+  induction l generalizing g with
+  | nil => exact h
+  | cons n t ih =>
+    unfold reqUpdate
+    split
+    · rename_i hn
+      apply ih
+      exact Inv_reqAdd g _ n h (by unfold reqAdd; simp [hn])
+    · exact h
+
+theorem reqUpdate_same (g : Grammar) (l : List Name) :
+    (reqUpdate g l).1.elems = g.elems ∧ (reqUpdate g l).1.defaults = g.defaults ∧
+    (reqUpdate g l).1.kind = g.kind := by
+  induction l generalizing g with
+  | nil => exact ⟨rfl, rfl, rfl⟩
+  | cons n t ih =>
+    unfold reqUpdate
+    split
+    · exact ih _
+    · exact ⟨rfl, rfl, rfl⟩
+
+theorem Inv_reqSub (g : Grammar) (l : List Name) (h : g.Inv) : (reqSub g l).Inv :=
+  ⟨⟨fun r hr => h.1.1 r (List.mem_filter.mp hr).1, h.1.2⟩, CacheOK_transfer g _ rfl rfl rfl h.2⟩
+
+theorem Inv_reqAnd (g : Grammar) (l : List Name) (h : g.Inv) : (reqAnd g l).Inv :=
+  ⟨⟨fun r hr => h.1.1 r (List.mem_filter.mp hr).1, h.1.2⟩, CacheOK_transfer g _ rfl rfl rfl h.2⟩
+
 /-! ### the lazily built objects -/
 
 theorem Inv_fillSchema (g : Grammar) (h : g.Inv) : g.fillSchema.Inv := by
